@@ -247,7 +247,8 @@ def rule_display_fields(prog):
     out = Out("DISPLAY-FIELDS")
     c = prog.front
     want = {"table::VariableEntry": {"is_ref", "name", "data_type"}, "table::ProcedureEntry": {"name", "parameters"},
-            "table::TypeEntry": {"data_type"}, "table::DataType": None}
+            "table::TypeEntry": {"name", "data_type"}, "table::DataType": None}
+    kind_word = {"table::ProcedureEntry": "proc", "table::TypeEntry": "type"}
     n = 0
     for b in c.bodies:
         if b.get("impl_trait") != "core::fmt::Display" or b["name"] != "fmt" or "impl_self" not in b:
@@ -273,6 +274,10 @@ def rule_display_fields(prog):
         read = set(f["name"] for f in hir.nodes(b["body"], "Field") if (place(f["base"]) or "").startswith("self#"))
         out.add("Display for " + last(st), "signature shows %s" % sorted(want[st]), want[st] <= read, c.loc(b["sp"]),
                 "fields read: %s — a signature that omits the reference marker, the name or the type does not tell the truth" % sorted(read))
+        if st in kind_word:
+            lits = " ".join(hir.format_text(b["body"]))
+            out.add("Display for " + last(st), "signature names the kind (`%s`)" % kind_word[st], kind_word[st] in lits, c.loc(b["sp"]),
+                    "text pieces of the signature: %r" % lits[:60])
     # Entry / GlobalEntry / LocalEntry Display delegate per variant
     if n < 4:
         out.missing("Display impls of table entries (found %d)" % n)
